@@ -121,7 +121,8 @@ class _InMemoryFeedback(Feedback):
       if not self._trial.measurements:
         raise ValueError(
             f'At least one measurement should be added for trial {self.id}.')
-      self._trial.status = 'COMPLETED'
+      if not self._study._mark_completed(self._trial):  # pylint: disable=protected-access
+        return
       self._trial.final_measurement = self._trial.measurements[-1]
       self._feedback_fn(self.dna, self._trial)
       self._trial.metadata.update(metadata or {})
@@ -130,8 +131,7 @@ class _InMemoryFeedback(Feedback):
   def skip(self, reason: Optional[str] = None) -> None:
     """Skips current trial without providing feedback to the controller."""
     del reason
-    if self._trial.status == 'PENDING':
-      self._trial.status = 'COMPLETED'
+    if self._study._mark_completed(self._trial):  # pylint: disable=protected-access
       self._trial.infeasible = True
       self._trial.final_measurement = Measurement(
           reward=0.0, step=0, elapse_secs=0.0)
@@ -194,6 +194,18 @@ class _InMemoryResult(Result):
       self._num_trials_by_status['PENDING'] += 1
       self._latest_trial_per_group[group_id] = trial
     return trial
+
+  def _mark_completed(self, trial: Trial) -> bool:
+    """Marks a pending trial as completed. Returns False if it was not pending.
+
+    Co-workers of a group may finish the same trial concurrently: only one of
+    them shall feed it back to the algorithm and update the bookkeeping.
+    """
+    with self._lock:
+      if trial.status != 'PENDING':
+        return False
+      trial.status = 'COMPLETED'
+      return True
 
   def _complete_trial(self, trial: Trial) -> None:
     """Status change callback."""
